@@ -102,6 +102,11 @@ func TestVfC18RunReleases(t *testing.T) {
 			}
 			defer held.Close()
 		}
+		// the context run() is given: never cancelled, or cancelled by its owner just before close() is called (close must
+		// release everything in both cases - a cancelled parent context is not a closed router)
+		ctxMode := rapid.SampledFrom([]string{"background", "background", "cancelled-before-close"}).Draw(t, "ctxMode")
+		runCtx, cancelRun := context.WithCancel(context.Background())
+		defer cancelRun()
 		type result struct {
 			r   *router
 			err error
@@ -114,7 +119,7 @@ func TestVfC18RunReleases(t *testing.T) {
 					done <- result{p: p}
 				}
 			}()
-			r, err := run(context.Background(), cfg)
+			r, err := run(runCtx, cfg)
 			done <- result{r: r, err: err}
 		}()
 		var res result
@@ -155,6 +160,9 @@ func TestVfC18RunReleases(t *testing.T) {
 			if res.err != nil {
 				t.Fatalf("run() failed: %v", res.err)
 			}
+			if ctxMode == "cancelled-before-close" {
+				cancelRun()
+			}
 			closed := make(chan any, 1)
 			go func() {
 				defer func() { closed <- recover() }()
@@ -180,7 +188,7 @@ func TestVfC18RunReleases(t *testing.T) {
 				}
 			}
 		}
-		st.Case(vfkit.Fingerprint(fmt.Sprint(addrs), failIdx, failStage, cfg.Metrics.Addr), failIdx != 0, []string{fmt.Sprintf("fail=%v", failIdx >= 0 || failStage != "none"), "stage=" + failStage, fmt.Sprintf("metrics=%v", cfg.Metrics.Addr != "")}, func() any {
+		st.Case(vfkit.Fingerprint(fmt.Sprint(addrs), failIdx, failStage, cfg.Metrics.Addr), failIdx != 0, []string{fmt.Sprintf("fail=%v", failIdx >= 0 || failStage != "none"), "stage=" + failStage, "ctx=" + ctxMode, fmt.Sprintf("metrics=%v", cfg.Metrics.Addr != "")}, func() any {
 			return map[string]any{"listeners": fmt.Sprint(addrs), "failing_index": failIdx, "failing_stage": failStage, "metrics": cfg.Metrics.Addr}
 		})
 	})
